@@ -136,13 +136,13 @@ func analyseHang(gap time.Duration) *Hang {
 	if len(h.Dump) > 60000 {
 		h.Dump = h.Dump[:60000]
 	}
-	// signature: the set of blocked positions. Which client operations happen to
-	// queue behind a pending writer differs from run to run, so all index methods
-	// blocked in RLock collapse into one token.
+	// signature: the set of blocked positions. Index methods queueing in RLock behind a pending
+	// or active writer are consequences, and which of them are caught there differs from run to
+	// run: they are listed in Blocked but left out of the signature.
 	uniq := map[string]bool{}
 	for _, b := range h.Blocked {
 		if strings.HasPrefix(b, ".(*indexImpl).") && strings.HasSuffix(b, "[sync.RWMutex.RLock]") {
-			b = ".(*indexImpl).<any> [sync.RWMutex.RLock]"
+			continue
 		}
 		uniq[b] = true
 	}
